@@ -12,6 +12,7 @@ Local Open Scope N_scope.
 Lemma C07_table_acc : types_accb = true. Proof. vm_compute. reflexivity. Qed.
 Lemma C07_table_ok : types_okb = true. Proof. vm_compute. reflexivity. Qed.
 Lemma C07_table_bonds : bonds_okb = true. Proof. vm_compute. reflexivity. Qed.
+Lemma C07_table_bond_spec : bond_spec_okb = true. Proof. vm_compute. reflexivity. Qed.
 
 (* every atom-type token molli can emit is a blank-free word its own reader accepts *)
 Theorem C07_tokens_accepted : forall e t g, e < n_elt -> t < n_atype -> g < n_geom ->
@@ -36,7 +37,7 @@ Print Assumptions C07_type_fixed_point.
 (* every bond type mol2 can express is written with its mol2 token and read back as itself *)
 Theorem C07_bond_expressible : forall name tk, In (name, tk) bond_spec ->
   exists b, pos_of name btype_names 0 = Some b /\ bget_tok b = u8 tk /\ bset_tok (u8 tk) = Some b.
-Proof. apply bond_spec_sound. vm_compute. reflexivity. Qed.
+Proof. exact (bond_spec_sound C07_table_bond_spec). Qed.
 Print Assumptions C07_bond_expressible.
 
 (* every bond type (all of BondType) is written with a token the reader accepts, and is a fixed point *)
@@ -91,9 +92,9 @@ Theorem C07_preserved : forall wq m m', wf_real_mol m = true -> read RV wq (writ
   /\ length (m_bonds m') = length (m_bonds m)
   /\ (forall k b, nth_error (m_bonds m) k = Some b ->
         exists b', nth_error (m_bonds m') k = Some b' /\ b_a1 b' = b_a1 b /\ b_a2 b' = b_a2 b
-          /\ (forall name tk, In (name, tk) bond_spec -> bond_spec_okb = true ->
+          /\ (forall name tk, In (name, tk) bond_spec ->
                 pos_of name btype_names 0 = Some (b_ty b) -> b_ty b' = b_ty b)).
-Proof. exact (real_preserved C07_table_acc C07_table_bonds). Qed.
+Proof. exact (real_preserved C07_table_acc C07_table_bonds C07_table_bond_spec). Qed.
 Print Assumptions C07_preserved.
 
 (* a second cycle changes nothing: the text written from what was read is the text that was read --
